@@ -709,6 +709,67 @@ class SymBytes:
     def __radd__(self, o):
         return mkbytes(tuple(o) + self.bs)
 
+    # --- text-like operations, delegated to the latin-1 view
+    def _v(self):
+        return SymStr(self.bs)
+
+    @staticmethod
+    def _arg(x):
+        if isinstance(x, SymBytes):
+            return SymStr(x.bs)
+        if isinstance(x, (bytes, bytearray)):
+            return SymStr(tuple(x))
+        if isinstance(x, int):
+            return SymStr((x,))
+        if isinstance(x, SymInt):
+            return SymStr((x.e,))
+        raise Unsupported("bytes argument %r" % type(x))
+
+    @staticmethod
+    def _out(x):
+        if isinstance(x, str):
+            return x.encode("latin-1")
+        if isinstance(x, SymStr):
+            return mkbytes(x.cs)
+        if isinstance(x, list):
+            return [SymBytes._out(y) for y in x]
+        if isinstance(x, tuple):
+            return tuple(SymBytes._out(y) for y in x)
+        return x
+
+    def split(self, sep=None, maxsplit=-1):
+        if sep is None:
+            raise Unsupported("bytes.split(None)")
+        return self._out(self._v().split(self._arg(sep), maxsplit))
+
+    def find(self, sub, start=None, end=None):
+        return self._v().find(self._arg(sub), start, end)
+
+    def index(self, sub, start=None, end=None):
+        return self._v().index(self._arg(sub), start, end)
+
+    def rfind(self, sub, start=None, end=None):
+        return self._v().rfind(self._arg(sub), start, end)
+
+    def startswith(self, p, *a):
+        return self._v().startswith(self._arg(p), *a)
+
+    def endswith(self, p, *a):
+        return self._v().endswith(self._arg(p), *a)
+
+    def replace(self, old, new, count=-1):
+        return self._out(self._v().replace(self._arg(old), self._arg(new), count))
+
+    def __contains__(self, x):
+        return self._v().find(self._arg(x)) != -1
+
+    def __iter__(self):
+        for b in self.bs:
+            yield b if isinstance(b, int) else SymInt(b)
+
+    def __bool__(self):
+        return len(self.bs) > 0
+
     def as_str(self):
         """view the byte string as a latin-1 SymStr (for running text algorithms on bytes)"""
         return mkstr(self.bs)
